@@ -94,9 +94,20 @@ static void chunk(std::vector<uint8_t> &o, const std::vector<uint8_t> &t) { o.in
 // song 1: two tracks (note A = key 36 on channel 0 in track 0, note B = key 84 on channel 1 in track 1);
 // song 2: the same events in one track.  Track 0 carries a device-switch meta (debug message at
 // play time) and the loopStart / loopEnd markers.  Ticks: A 0..8, B 10..18, loopEnd 20, end 24.
+// song 3: an EA-MUS ("RSXX") file, the only format that locks the set-up (Synth::setupLocked()): byte 0 = offset
+// of the music data (93 = 0x5D, the smallest the detector accepts; odd, so the IMF detector tried first declines),
+// the signature "rsxx}u" 16 bytes before it, one track without a leading delta time: note A (key 36, channel 0)
+// ticks 0..16, end 24, at 60 ticks per second, no markers, no device-switch meta.
 static std::vector<uint8_t> songImage(int s)
 {
     std::vector<uint8_t> o, t0, t1;
+    if(s == 3)
+    {
+        static const uint8_t music[] = { 0x90, 36, 100, 0x10, 0x80, 36, 0, 0x08, 0xFF, 0x2F, 0x00 };
+        o.assign(93, 0); o[0] = 93; memcpy(&o[93 - 0x10], "rsxx}u", 6);
+        o.insert(o.end(), music, music + sizeof music);
+        return o;
+    }
     o.insert(o.end(), {'M', 'T', 'h', 'd'}); be(o, 6, 4); be(o, s == 1 ? 1 : 0, 2); be(o, s == 1 ? 2 : 1, 2); be(o, 96, 2);
     meta(t0, 0, 9, "dev"); meta(t0, 0, 6, "loopStart");
     ev3(t0, 0, 0x90, 36, 100); ev3(t0, 8, 0x80, 36, 0);
@@ -283,7 +294,7 @@ static long long apply(Inst &in, const std::string &e, const JV &c, bool &hasR)
         if(bad == 1) { for(size_t k = 0; k < img.size(); ++k) img[k] = (uint8_t)(0xA5 ^ (k * 37)); }   // garbage
         else if(bad == 2) img.resize(20);                  // header + half a track header
         else if(bad == 3) img.clear();                     // empty
-        else if(bad == 4) img[15] ^= 0x20;                 // MTrk signature broken
+        else if(bad == 4) img[c.get("s", 1) == 3 ? 77 : 15] ^= 0x20;   // MTrk (song 3: rsxx) signature broken
         uint8_t dummy = 0;
         r = opn2_openData(dev, img.empty() ? &dummy : img.data(), (unsigned long)img.size()); hasR = true;
     }
